@@ -17,13 +17,14 @@ from core import f2h, q2s, s2q, h2f
 
 F_JOLT = "F-C18-jolt-abs-eps"
 F_ORIG = "F-C18-orig-abs-eps"
+F_JOLT_SLIVER = "F-C18-jolt-sliver"
 F_JOLT_ILL = "F-C18-jolt-illcond"
 F_ORIG_ILL = "F-C18-orig-illcond"
 ILL_C = Fr(64, 2 ** 52)          # 64 * eps(double): admitted error is ILL_C / rho * Lmax
 FN_JOLT = "gjk._gjk_jolt.get_closest_point_to_origin"
 FN_ORIG = "gjk._gjk_original.distance_subalgorithm_with_backup_procedure(backup=True)"
 
-RULE = ("k = 1..4 points, three generator streams from one PRNG: lattice L = ordered k-tuples over {-1,0,1}^3 "
+RULE = ("k = 1..4 points, four generator streams from one PRNG: lattice L = ordered k-tuples over {-1,0,1}^3 "
         "(k = 1, 2 exhaustive: 27 + 729; k = 3: 4000 sampled in the quick tier, all 19683 in the thorough tier; k = 4: "
         "2000 / 100000 sampled) compared at exact rationals; general G = random simplices in a box L*(1, 10^-U(0,6), "
         "10^-U(0,12)), L in [1e-2, 1e2], random rotation, translated so that the origin has chosen barycentric "
@@ -31,19 +32,28 @@ RULE = ("k = 1..4 points, three generator streams from one PRNG: lattice L = ord
         "h in {0, +-L*10^-U(0,6)}, 10 % near/exact duplicates; edge M = n = 1, duplicates, exactly collinear / "
         "coplanar inputs, origin on a vertex / edge / face / centroid, zero vectors, prev_v_len_sqr below the result, "
         "scaled copies (1 .. 1e-9) of a regular tetrahedron and a triangle, sub-EPSILON segments, witnesses of the "
-        "four known findings. "
+        "five known findings; near-duplicate N (3000 quick / 30000 thorough, added for the repair ea3a5ff of "
+        "closest_point_triangle) = the rounding-duplicate triangle a = (-4.4,0,-5.8), b = (2,0,-1), c = b + last-bit "
+        "noise (4 variants) plus lattice configurations (25 % scaled, half of those rotated) whose third (k = 3) resp. "
+        "third or fourth (k = 4) point is an earlier point plus 0..8 ulp of noise per coordinate with independent "
+        "signs (0 = exact duplicate; zero coordinates get ulp(scale) or a denormal). "
         "Every case is run on both solvers. Oracle tolerance: | |v| - min | <= 1e-9 * max(min, Lmax), Lmax = max_i |p_i| "
         "('norm within 1e-9 relative' read relative to the larger of the true distance and the size of the simplex); "
         "returned point within 1e-9*Lmax of the hull of the returned subset; weights >= -1e-12, |sum - 1| <= 1e-9. "
         "A failing input carries a known-finding id only if an exact rational recomputation puts it into the class: "
-        "abs-eps = 0 < |n|^2 < EPSILON_SQR / 0 < |b-a|^2 < EPSILON_SQR / origin strictly inside with a plane value "
-        "within EPSILON of 0 (Jolt), origin strictly inside with a cofactor d[i,14] in (0, EPSILON] (original); "
+        "abs-eps = a segment that is solved has 0 < |b-a|^2 < EPSILON_SQR / origin strictly inside the tetrahedron "
+        "with a plane value within EPSILON of 0 (Jolt; thresholds pinned), origin strictly inside with a cofactor "
+        "d[i,14] in (0, EPSILON] (original); sliver = a triangle that is solved (k = 3 or a tested face) has "
+        "0 < |n|^2 <= 2^-52 * (longest squared edge)^2 and the violation is <= 2*sqrt(2^-52)*Lmax; "
         "illcond = violation <= 64*eps/rho*Lmax, rho = smallest non-zero relative Gram determinant det G/Lmax^(2m) "
         "of a sub-simplex. A case is non-trivial if the solver returns; distinct = distinct (solver, points, prev)")
 EXPLANATION = ("the Lean theorems are about the models D3.Simplex (Jolt) and D3.SimplexOrig (original backup procedure); "
                "this run compares set bits / ordered indices exactly and points / weights / squared distances within "
                "1e-12 (lattice, Rat) resp. 1e-9*Lmax (general, Float, arbitrated at Rat) with the real code, and checks "
-               "the real code against an exact rational minimum-norm oracle (all sub-simplices, integer Cramer)")
+               "the real code against an exact rational minimum-norm oracle (all sub-simplices, integer Cramer); the "
+               "repair ea3a5ff (relative instead of absolute degeneracy test in closest_point_triangle) is covered by "
+               "the N stream and by running the pre-repair model C18.triold next to C18.tri on the inputs that separate "
+               "the two tests (old: regular branch 0..6 / set 3 on the tiny triangle; new: edge fallback 7..9 / set 7)")
 PARTIAL = {
     "backup_optimal": "not proved (Johnson's theorem: the best sub-simplex with positive cofactors is the minimiser of "
                       "the hull; needs Caratheodory + the cofactor/projection identity). Proved instead: "
@@ -72,6 +82,14 @@ ASSUMPTIONS = [
     "below ~1e-5) both solvers miss the 1e-9 tolerance by rounding; such failures are reported as known findings "
     "F-C18-*-illcond only when the violation is at most 64*eps/rho*Lmax (below 1e-9*Lmax for rho >= 1.5e-5), "
     "every other failure is a violation",
+    "since the repair ea3a5ff closest_point_triangle sends triangles with |n|^2 <= EPSILON*(longest squared edge)^2 to "
+    "the edge fallback: a non-degenerate sliver with the origin's projection inside is then answered with an edge "
+    "point that is off by up to its altitude (<= 1.5e-8 * longest edge); reported as known finding F-C18-jolt-sliver "
+    "only if the violation is <= 2*sqrt(2^-52)*Lmax",
+    "the ulp-noise stream N draws ties by construction (two sub-simplices describing the same point up to rounding); "
+    "a tie is accepted only if both answers pass the exact oracle; the 2 % tie limit applies to the G stream only",
+    "v_len_sq is compared with |v|^2 within 1e-12 relative plus 2^-1022 absolute (underflow of squares of denormal "
+    "coordinates)",
     "coordinates are finite doubles without overflow / underflow of squared lengths (|p| within 1e-100 .. 1e100)",
 ]
 TRUSTED = [
@@ -93,7 +111,10 @@ MANIFEST = dict(
     note=("trusted: Lean kernel + Mathlib, axioms propext/Classical.choice/Quot.sound; exact-real semantics of the "
           "model (float rounding not modelled; absolute thresholds EPSILON, EPSILON_SQR taken from the regenerated "
           "constants); the two absolute-threshold defects (tiny simplices) are recorded as known findings and "
-          "excluded by name from the theorems; correspondence harness (sampling)."),
+          "excluded by name from the theorems; correspondence harness (sampling). After the repair ea3a5ff the "
+          "known-finding classes are: F-C18-jolt-abs-eps (segments, tetrahedron plane band), F-C18-jolt-sliver (edge "
+          "fallback of near-degenerate triangles, bounded by the altitude), F-C18-jolt-illcond (numerically flat "
+          "tetrahedra), F-C18-orig-abs-eps, F-C18-orig-illcond."),
     technique="Lean 4 proof on hand-written model + correspondence (Rat-exact on the lattice) + exact rational QP oracle",
     design="§7 C18")
 
@@ -101,6 +122,7 @@ TOL2 = Fr(1, 10 ** 18)          # (1e-9)^2
 PIN_JOLT_EPS = Fr(1, 2 ** 52)            # utils.EPSILON = 2.220446049250313e-16
 PIN_JOLT_EPS2 = Fr(1, 2 ** 104)          # _gjk_jolt.EPSILON_SQR = 4.930380657631324e-32
 PIN_ORIG_EPS = Fr(10, 2 ** 52)           # _gjk_original.EPSILON = 2.220446049250313e-15
+PIN_JOLT_EPS_REL = Fr(1, 2 ** 52)        # relative sliver threshold of closest_point_triangle since ea3a5ff (utils.EPSILON)
 ORIG_CANDS = ["seg01", "seg02", "face012", "seg03", "face013", "face023", "hull", "v1", "v2", "v3",
               "seg12", "seg13", "seg23", "face123"]
 
@@ -471,13 +493,36 @@ def illcond(Pq, quantities, L2):
     return None
 
 
+def _tri_n2_lsq(Pq, i, j, l):
+    """exact |n|^2 and longest squared edge of triangle (i, j, l)"""
+    ab, ac, bc = vsub(Pq[j], Pq[i]), vsub(Pq[l], Pq[i]), vsub(Pq[l], Pq[j])
+    n = vcross(ab, ac)
+    return vdot(n, n), max(vdot(ab, ab), vdot(ac, ac), vdot(bc, bc))
+
+
+def _solved_triangles(P):
+    """the triangles closest_point_triangle is actually called on: the input for k = 3, the faces of the
+    tetrahedron flagged by the real origin_outside_of_tetrahedron_planes for k = 4"""
+    gj, _ = _mods()
+    if len(P) == 3:
+        return [(0, 1, 2)]
+    if len(P) == 4:
+        with np.errstate(all="ignore"):
+            flags = gj.origin_outside_of_tetrahedron_planes(*[np.array(p, dtype=float) for p in P])
+        faces = [(0, 1, 2), (0, 2, 3), (0, 3, 1), (1, 3, 2)]
+        return [f for f, used in zip(faces, flags) if used]
+    return []
+
+
 def jolt_band(P):
-    """exact test whether the input lies in one of the absolute-threshold bands of F-C18-jolt-abs-eps.
+    """exact test whether the input lies in one of the absolute-threshold bands of F-C18-jolt-abs-eps
+    (since the repair ea3a5ff: sub-EPSILON segments and the tetrahedron plane band only).
     Returns a description or None."""
     gj, _ = _mods()
     # thresholds PINNED to the values recorded with the finding (not read from the module: an edit that
     # enlarges a threshold must not be excused by the known finding)
     EPS, EPS2 = min(Fr(float(gj.EPSILON)), PIN_JOLT_EPS), min(Fr(float(gj.EPSILON_SQR)), PIN_JOLT_EPS2)
+    EREL = min(Fr(float(gj.EPSILON)), PIN_JOLT_EPS_REL)
     Pq = to_q(P)
     k = len(Pq)
 
@@ -487,11 +532,10 @@ def jolt_band(P):
         return "segment %d%d has 0 < |b-a|^2 = %.3g < EPSILON_SQR" % (i, j, float(l2)) if 0 < l2 < EPS2 else None
 
     def tri(i, j, l):
-        n = vcross(vsub(Pq[j], Pq[i]), vsub(Pq[l], Pq[i]))
-        n2 = vdot(n, n)
-        if 0 < n2 < EPS2:
-            return "triangle %d%d%d has 0 < |n|^2 = %.3g < EPSILON_SQR" % (i, j, l, float(n2))
-        if n2 == 0:     # exactly collinear: the edge fallback is the intended path; its segments may be in the band
+        # a triangle sent to the edge fallback (exactly collinear or below the relative sliver threshold) is solved by
+        # closest_point_line on its three edges; these segments may be in the absolute band
+        n2, lsq = _tri_n2_lsq(Pq, i, j, l)
+        if n2 <= EREL * lsq * lsq:
             return seg(i, j) or seg(i, l) or seg(j, l)
         return None
 
@@ -510,14 +554,31 @@ def jolt_band(P):
         if D < 0 and all(s > 0 for s in signp) and any(s <= EPS for s in signp):
             return ("origin strictly inside, D = %.3g < 0 and a plane value in (0, EPSILON]: signp = %s"
                     % (float(D), [float(s) for s in signp]))
-        with np.errstate(all="ignore"):
-            flags = gj.origin_outside_of_tetrahedron_planes(*[np.array(p, dtype=float) for p in P])
-        faces = [(0, 1, 2), (0, 2, 3), (0, 3, 1), (1, 3, 2)]
-        for f, used in zip(faces, flags):
-            if used:
-                r = tri(*f)
-                if r:
-                    return r
+        for f in _solved_triangles(P):
+            r = tri(*f)
+            if r:
+                return r
+    return None
+
+
+def jolt_sliver(P, Pq, quantities, L2):
+    """exact test for the class of F-C18-jolt-sliver (introduced by the repair ea3a5ff): a triangle that is actually
+    solved has 0 < |n|^2 <= EPS_REL * Lsq^2 (Lsq = its longest squared edge, EPS_REL pinned to 2^-52), so it is sent to
+    the best-of-three-edges fallback although it is not exactly degenerate, AND the violation is at most
+    2*sqrt(EPS_REL)*Lmax (the fallback is off by at most the altitude <= sqrt(EPS_REL) * longest edge).
+    Returns a description or None."""
+    if quantities is None:
+        return None
+    gj, _ = _mods()
+    EREL = min(Fr(float(gj.EPSILON)), PIN_JOLT_EPS_REL)
+    a, b = quantities
+    if not sqrt_close(a, b, 4 * EREL * L2):
+        return None
+    for f in _solved_triangles(P):
+        n2, lsq = _tri_n2_lsq(Pq, *f)
+        if 0 < n2 <= EREL * lsq * lsq:
+            return ("sliver: triangle %d%d%d has 0 < |n|^2 = %.3g <= EPS_REL * Lsq^2 = %.3g (edge fallback), violation <= "
+                    "2*sqrt(EPS_REL)*Lmax = %.3g" % (f + (float(n2), float(EREL * lsq * lsq), 2 * fsqrt(EREL * L2))))
     return None
 
 
@@ -583,6 +644,10 @@ def classify(solver, P, Pq, what, qty, L2):
         band = jolt_band(P) if solver == "jolt" else orig_band(P)
     if band:
         return (F_JOLT if solver == "jolt" else F_ORIG), band
+    if solver == "jolt":
+        sl = jolt_sliver(P, Pq, qty, L2)
+        if sl:
+            return F_JOLT_SLIVER, sl
     ill = illcond(Pq, qty, L2)
     if ill:
         return (F_JOLT_ILL if solver == "jolt" else F_ORIG_ILL), ill
@@ -620,7 +685,7 @@ def oracle_jolt(P, res=None, ex=None):
         fid, desc = classify("jolt", P, Pq, what, qty, L2)
         add(what, detail + ("; " + desc if desc else ""), fid)
     got = vdot(vq, vq)
-    if abs(Fr(res["vlen"]) - got) > Fr(1, 10 ** 12) * got:
+    if abs(Fr(res["vlen"]) - got) > Fr(1, 10 ** 12) * got + Fr(1, 2 ** 1022):     # 2^-1022: underflow of the squares
         add("v_len_sq", "v_len_sq = %r but |v|^2 = %r" % (res["vlen"], float(got)))
     return fails, res
 
@@ -776,6 +841,54 @@ def scaled(P, s):
     return [[s * float(x) for x in p] for p in P]
 
 
+NDUP_A, NDUP_B = (-4.4, 0.0, -5.8), (2.0, 0.0, -1.0)
+NDUP_VARIANTS = [("b+(4e-16,0,3e-16)", (4e-16, 0.0, 3e-16)), ("b+(2^-51,0,0)", (2.0 ** -51, 0.0, 0.0)),
+                 ("b+(0,0,2^-52)", (0.0, 0.0, 2.0 ** -52)), ("b+(0,2^-51,0)", (0.0, 2.0 ** -51, 0.0))]
+
+
+def near_dup_witnesses():
+    """the rounding-duplicate triangle of the repair ea3a5ff (c = b up to the last bits) and three variants whose
+    |n|^2 ~ 1e-30 is above the old absolute EPSILON_SQR: regular for the old test, degenerate for the new one"""
+    return [("ndup " + nm, [list(NDUP_A), list(NDUP_B), [NDUP_B[i] + d[i] for i in range(3)]])
+            for nm, d in NDUP_VARIANTS]
+
+
+def near_dup_case(rng, nprs):
+    """lattice-adjacent near-duplicate: a lattice configuration (sometimes scaled / rotated) whose third (k = 3) resp.
+    third or fourth (k = 4) point is replaced by an earlier point plus 0..8 ulp of noise per coordinate"""
+    k = rng.choice([3, 3, 4, 4, 4])
+    pts = np.array(lattice_cfg(rng.randrange(27 ** k), k), dtype=float)
+    scale, rot = 1.0, False
+    if rng.random() < 0.25:
+        scale = rng.choice([0.1, 3.7, 1e-3, 123.456, 2.0 ** -10])
+        pts = pts * scale
+        if rng.random() < 0.5:
+            rot = True
+            pts = pts.dot(rand_rotation(nprs).T)
+    j = 2 if k == 3 else rng.choice([2, 3])
+    i = rng.randrange(j)
+    kk = rng.randint(0, 8)
+    new = []
+    for x in pts[i]:
+        x = float(x)
+        kc = kk if rng.random() < 0.5 else rng.randint(0, kk)
+        sg = rng.choice([-1.0, 1.0])
+        u = math.ulp(x) if x != 0.0 else (math.ulp(scale) if rng.random() < 0.8 else 5e-324)
+        new.append(x + sg * kc * u)
+    pts[j] = new
+    return ([[float(x) for x in q] for q in pts],
+            {"k": k, "dup_of": i, "replaced": j, "ulps": kk, "scale": scale, "rotated": rot})
+
+
+def near_dup_cases(ctx, n):
+    nprs = np.random.RandomState(ctx.rng.randrange(2 ** 32))
+    cases = [(P, None, {"name": nm}) for nm, P in near_dup_witnesses()]
+    for _ in range(n):
+        P, meta = near_dup_case(ctx.rng, nprs)
+        cases.append((P, None, meta))
+    return cases
+
+
 def edge_cases():
     """malformed / edge stream: list of (name, points, prev)"""
     E = []
@@ -855,7 +968,22 @@ def edge_cases():
     add("tiny-seg-around-origin", [(-1e-17, 0, 0), (1e-17, 0, 0)])
     add("near-dup-seg", [(1, 2, 3), (1, 2, 3 + 4e-16)])
     add("near-dup-tri", [(1, 0, 1), (-1, 1, 1), (-1, 1 + 2e-16, 1)])
+    # witness of F-C18-jolt-sliver: origin inside a triangle whose altitude 1e-8 is below sqrt(2^-52) * longest edge
+    add("sliver-jolt-tri", [(-0.5, -3e-9, 0), (0.5, -3e-9, 0), (0, 7e-9, 0)])
+    add("sliver-jolt-tet-face", [(-0.5, -3e-9, 0), (0.5, -3e-9, 0), (0, 7e-9, 0), (0.1, 0.2, 1)])
+    for nm, P in near_dup_witnesses():
+        add(nm, P)
     # witnesses of the ill-conditioning findings (float cancellation; found by the general stream)
+    add("illcond-jolt-neardup-tet-origin-returned",
+        [[88.54269573173961, -70.99887195791985, 48.58739702082715],
+         [-76.9688071325108, 10.99222853821495, 156.3257544755886],
+         [-76.96880713251092, 10.99222853821496, 156.32575447558884],
+         [11.573888599228809, -60.0066434197049, 204.91315149641576]])
+    add("illcond-jolt-neardup-tet-2",
+        [[-16.043471185970667, 64.73749521306286, -203.16450367582325],
+         [161.76413315370465, 102.66164180208139, 94.95843477823149],
+         [-16.043471185970677, 64.73749521306289, -203.16450367582325],
+         [-88.90380216983766, -18.962073294509267, -149.06146922702737]])
     add("illcond-jolt-flat-tet", [[-5.943095231142248, 5.609801791053678, -7.467064134445225],
                                   [-2.8187403131087616, 2.660665329748174, -3.5415377044311294],
                                   [-1.1322477862197182, 1.0687529448482236, -1.4225828293044365],
@@ -1065,8 +1193,9 @@ def corr_small(ctx):
             ctx.broke("correspondence", "gjk._gjk_jolt." + names[kind], bad, {"kind": kind, "input": P})
 
 
-def corr_float_stream(ctx, stream, cases):
-    """cases: list of (P, prev, meta). Compare at Float, arbitrate mismatches at Rat."""
+def corr_float_stream(ctx, stream, cases, tie_limit=0.02):
+    """cases: list of (P, prev, meta). Compare at Float, arbitrate mismatches at Rat.
+    tie_limit: admitted fraction of ties (None: no limit; near-duplicate inputs tie by construction)."""
     drv = core.Driver("c18-" + stream.lower() + "f")
     plan = []
     for P, prev, meta in cases:
@@ -1148,8 +1277,63 @@ def corr_float_stream(ctx, stream, cases):
                                              _mo_str(mQ), [(f["what"], f["finding"]) for f in pf], mok),
                   {"solver": solver, "points": P, "n": len(P), "prev": c["prev"]})
     nt = sum(v for k, v in ex["ties"].items() if k.startswith(stream + ":"))
-    if plan and nt > 0.02 * 2 * len(plan):
-        ctx.broke("correspondence", "tie rate", "%d ties in %d %s-stream evaluations (> 2 %%)" % (nt, 2 * len(plan), stream))
+    if plan and tie_limit is not None and nt > tie_limit * 2 * len(plan):
+        ctx.broke("correspondence", "tie rate", "%d ties in %d %s-stream evaluations (> %g %%)"
+                  % (nt, 2 * len(plan), stream, 100 * tie_limit))
+
+
+def corr_triold(ctx):
+    """the repair ea3a5ff of closest_point_triangle (absolute -> relative degeneracy test): the pre-repair model
+    `C18.triold` and the current model `C18.tri` at Float on the inputs that separate them, and `C18.tri` against
+    the real closest_point_triangle."""
+    gj, _ = _mods()
+    cases = [("M", "old abs-eps witness 1e-9*TRI", scaled(TRI, 1e-9), "tiny")]
+    for t, (nm, P) in enumerate(near_dup_witnesses()):
+        cases.append(("N", nm, P, "first" if t == 0 else "variant"))
+    drv = core.Driver("c18-triold")
+    plan = []
+    for stream, nm, P, kind in cases:
+        with np.errstate(all="ignore"):
+            v, st = gj.closest_point_triangle(*[np.array(p, dtype=float) for p in P])
+        plan.append((stream, nm, P, kind, [float(x) for x in v], int(st),
+                     drv.add("C18.tri", "F", enc_pts(P, "F", 3)), drv.add("C18.triold", "F", enc_pts(P, "F", 3))))
+    out = drv.run()
+    for stream, nm, P, kind, v, st, cn, co in plan:
+        ctx.count(stream + ":triold", key=("triold", tuple(map(tuple, P))),
+                  sample={"stream": stream, "name": nm, "points": P, "python": [v, st], "tri": out.get(cn),
+                          "triold": out.get(co)})
+        tn, to = (out.get(cn) or "bad missing").split(), (out.get(co) or "bad missing").split()
+        seed = {"solver": "jolt", "points": P, "n": 3}
+        if tn[0] != "ok" or to[0] != "ok" or len(tn) != 6 or len(to) != 6:
+            ctx.broke("correspondence", "C18.tri / C18.triold", "driver: %s | %s" % (out.get(cn), out.get(co)), seed)
+            continue
+        brn, setn, bro, seto = int(tn[1]), int(tn[2]), int(to[1]), int(to[2])
+        ctx.branch("closest_point_triangle (C18.tri, repair inputs)", brn)
+        ctx.branch("closest_point_triangle before ea3a5ff (C18.triold)", bro)
+        Lm = math.sqrt(max(vdot(p, p) for p in P))
+        pn = [h2f(x) for x in tn[3:6]]
+        if setn != st or not all(abs(a - b) <= 1e-9 * Lm for a, b in zip(v, pn)):
+            ctx.broke("correspondence", "gjk._gjk_jolt.closest_point_triangle",
+                      "%s: python %s set %d, model C18.tri %s set %d (branch %d)" % (nm, v, st, pn, setn, brn), seed)
+        bad = None
+        if kind == "tiny":
+            # pre-repair: 0 < |n|^2 < EPSILON_SQR -> edge fallback (set 3); repaired: regular face region (set 7)
+            if not (7 <= bro <= 9 and seto == 3):
+                bad = "pre-repair model expected in the edge fallback with set 3, got branch %d set %d" % (bro, seto)
+            elif not (brn == 6 and setn == 7 and st == 7):
+                bad = "repaired model / code expected in the face region (set 7): model branch %d set %d, python set %d" % (
+                    brn, setn, st)
+        elif kind == "variant":
+            # |n|^2 ~ 1e-30 > EPSILON_SQR: regular for the old absolute test, degenerate for the relative one
+            if not (0 <= bro <= 6):
+                bad = "pre-repair model expected regular (branch 0..6), got branch %d" % bro
+            elif not (7 <= brn <= 9):
+                bad = "repaired model expected in the edge fallback (branch 7..9), got branch %d" % brn
+        else:
+            if not (7 <= brn <= 9):
+                bad = "repaired model expected in the edge fallback (branch 7..9), got branch %d" % brn
+        if bad:
+            ctx.broke("correspondence", "closest_point_triangle degeneracy test (repair ea3a5ff)", nm + ": " + bad, seed)
 
 
 def correspondence(ctx):
@@ -1165,13 +1349,15 @@ def correspondence(ctx):
         cases.append((P, None, meta))
     corr_float_stream(ctx, "G", cases)
     corr_float_stream(ctx, "M", [(P, prev, {"name": name}) for name, P, prev in edge_cases()])
+    corr_float_stream(ctx, "N", near_dup_cases(ctx, ctx.budget(3000, 30000)), tie_limit=None)
+    corr_triold(ctx)
 
 
 # ============================================================================ search
 def search(ctx):
     for k in ("ties", "float_model_rounding", "known_finding_divergence", "known_finding_hits"):
         ctx.extra.setdefault(k, {})
-    boost = 3 if ctx.extra.get("search_boost") else 1
+    boost = 2 if ctx.extra.get("search_boost") else 1
     t0 = time.time()
     cap = ctx.budget(45, 600) * boost
     nl = ctx.budget(6000, 60000) * boost
@@ -1185,6 +1371,12 @@ def search(ctx):
     for name, P, prev in edge_cases():
         if prev is None:
             run_oracles(ctx, P, "M")
+    # near-duplicate stream
+    for P, _prev, _meta in near_dup_cases(ctx, ctx.budget(3000, 30000) * boost):
+        run_oracles(ctx, P, "N")
+        if time.time() - t0 > cap / 2:
+            ctx.notes.append("search: near-duplicate stream stopped by the time cap")
+            break
     nprs = np.random.RandomState(ctx.rng.randrange(2 ** 32))
     ng = ctx.budget(20000, 200000) * boost
     for i in range(ng):
